@@ -106,7 +106,7 @@ EXTRA = {
  "C15": " Handler behaviours also include W.Flush()/FlushError() on the untouched response and the Store's own helpers (Respond200, RespondJson, Redirect, Error404, Error500, a wrapped http.HandlerFunc); request lines of 17-46 KiB; raw non-ASCII bytes in the path (recorder path); panic values also: an error held by value whose Error method panics, a uint64 above MaxInt64, a string beginning with byte 0x80. A handler may write without ever flushing (the writer's buffered bytes are flushed by the server).",
  "C17": " Quick also sweeps every byte (first / last / in the middle of climbing paths) and the trivial paths against unclean bases; for a dot-free path the result must equal filepath.Join(base, path) exactly.",
  "C18": " Also: source-side aliasing (the source path is a symlink, a chain of symlinks, a ./-spelling or a hard link; the destination is the real file, another link to it, or an intermediate link of the source's own chain), sizes 2 MiB+1 / 4 MiB+3 / 8 MiB+1, and concurrent calls on distinct files in quick.",
- "C19": " Data also reaches the writer the way callers send it (io.Copy / CopyN / CopyBuffer, WriteTo, io.WriteString, fmt.Fprintf, bufio.Writer) over wrapped writers with and without ReadFrom / WriteString, scripted and OS-backed (temp file, /dev/null, /dev/full, broken pipe); Status() is probed after Close() has returned. Wrapped writers that also implement Close are used; Close must reach them exactly once.",
+ "C19": " Data also reaches the writer the way callers send it (io.Copy / CopyN / CopyBuffer, WriteTo, io.WriteString, fmt.Fprintf, bufio.Writer) over wrapped writers with and without ReadFrom / WriteString, scripted and OS-backed (temp file, /dev/null, /dev/full, broken pipe); Status() is probed after Close() has returned. Wrapped writers that also implement Close (succeeding, failing, already closed, slow) are used; the Status() judgements are unchanged by them.",
  "C20": " Also: slow-daemon cases (the handler waits before Done() at a gate only the supervisor opens; a Launch that has returned while it is closed is the violation), daemons that use their standard descriptors after Done(), handler names at the edges (\"\", blanks, '=', 200 bytes, prefixes of each other), launches from inside a daemon, and callers started through a relative path, PATH lookup or a symlink. Ordinary pre-Done actions of a daemon (cleaning its environment, chdir, closing inherited descriptors, setsid) and handler names with path or list separators are exercised.",
 }
 
